@@ -58,7 +58,14 @@
 //! [signal-hook]: https://docs.rs/signal-hook
 //! [async-signal-safe]: http://www.man7.org/linux/man-pages/man7/signal-safety.7.html
 
+#[cfg(not(sighook_verif))]
 extern crate libc;
+#[cfg(sighook_verif)]
+extern crate libc as real_libc;
+#[cfg(sighook_verif)]
+pub mod verif_shim;
+#[cfg(sighook_verif)]
+use verif_shim::libc_facade as libc;
 
 mod half_lock;
 
@@ -676,6 +683,70 @@ pub fn unregister_signal(signal: c_int) -> bool {
         lock.store(sigdata);
     }
     replace
+}
+
+/// Entry points for the verification harness (only with `--cfg sighook_verif`).
+#[cfg(all(sighook_verif, not(windows)))]
+pub mod verif {
+    use super::*;
+
+    /// Make sure the global registry exists.
+    pub fn ensure() {
+        GlobalData::ensure();
+    }
+
+    /// Run the library's dispatcher exactly as the kernel would for `sig` (a simulated delivery).
+    pub unsafe fn deliver(sig: c_int, info: *mut siginfo_t, ctx: *mut c_void) {
+        handler(sig, info, ctx)
+    }
+
+    /// Address of the dispatcher (to recognise the library's disposition).
+    pub fn handler_addr() -> usize {
+        handler as usize
+    }
+
+    /// Addresses of the shared words of the two global half-locks.
+    pub fn layout() -> Vec<(String, usize)> {
+        let g = GlobalData::ensure();
+        let mut v = Vec::new();
+        for (n, a) in g.data.verif_layout().iter() {
+            v.push((format!("data.{}", n), *a));
+        }
+        for (n, a) in g.race_fallback.verif_layout().iter() {
+            v.push((format!("fallback.{}", n), *a));
+        }
+        v
+    }
+
+    /// A free-standing half-lock for small-scope exploration.
+    pub struct HalfLockProbe<T>(HalfLock<T>);
+
+    impl<T> HalfLockProbe<T> {
+        /// `HalfLock::new`
+        pub fn new(v: T) -> Self {
+            HalfLockProbe(HalfLock::new(v))
+        }
+        /// Addresses of the shared words.
+        pub fn layout(&self) -> Vec<(String, usize)> {
+            self.0.verif_layout().iter().map(|(n, a)| (n.to_string(), *a)).collect()
+        }
+        /// `read()`, run `f` on the pinned value, drop the guard.
+        pub fn read<R, F: FnOnce(&T) -> R>(&self, f: F) -> R {
+            let guard = self.0.read();
+            f(&guard)
+        }
+        /// `write()`, then `store(v)` if `f` returns a new value.
+        pub fn write<F: FnOnce(&T) -> Option<T>>(&self, f: F) -> bool {
+            let mut guard = self.0.write();
+            match f(&guard) {
+                Some(v) => {
+                    guard.store(v);
+                    true
+                }
+                None => false,
+            }
+        }
+    }
 }
 
 #[cfg(test)]
